@@ -54,6 +54,13 @@ func checkTime(tm time.Time) string {
 	}
 	// ---- struct field, list element, map value, untyped element
 	c := &zoo.TimeCarrier{T: tm, L: []time.Time{time.Unix(1, 0), tm, {}, tm}, M: map[string]time.Time{"a": tm}, A: []interface{}{tm, int32(1)}, T2: time.Time{}}
+	if !tm.IsZero() {
+		// the same *time.Time twice, and a shared object after the timestamps: a timestamp is
+		// not a container and must not take part in reference numbering
+		pt := tm
+		shared := &zoo.Inner{A: 5, S: "after-dates"}
+		c.PT1, c.PT2, c.P1, c.P2, c.LP = &pt, &pt, shared, shared, []*time.Time{&pt, nil, &pt}
+	}
 	tmap, nm := hessian.ExtractTypeNameMap(c)
 	if pv, st := guard(func() { b, err = hessian.ToBytes(c, nm) }); pv != nil || err != nil {
 		return fmt.Sprintf("carrier encode: %v %v [%s]", err, pv, st)
@@ -97,6 +104,19 @@ func checkTime(tm time.Time) string {
 	}
 	if m := chk("map value", o.M["a"]); m != "" {
 		return m
+	}
+	if !tm.IsZero() {
+		if o.PT1 == nil || o.PT2 == nil || len(o.LP) != 3 || o.LP[0] == nil || o.LP[2] == nil || o.LP[1] != nil {
+			return fmt.Sprintf("pointers to the timestamp came back nil / misplaced: %v %v %v", o.PT1, o.PT2, o.LP)
+		}
+		for _, p := range []*time.Time{o.PT1, o.PT2, o.LP[0], o.LP[2]} {
+			if m := chk("pointer to timestamp", *p); m != "" {
+				return m
+			}
+		}
+		if o.P1 == nil || o.P1 != o.P2 || o.P1.S != "after-dates" {
+			return fmt.Sprintf("the object shared after the timestamps came back as %v / %v", o.P1, o.P2)
+		}
 	}
 	if !tm.IsZero() {
 		at, ok := o.A[0].(time.Time)
